@@ -80,9 +80,9 @@ theorem refEngine_spec : EngineSpec refEngine := by
 /-! ### `gds_validate_simple_patterns` -/
 
 theorem patOK_sound {E : Engine} (hE : EngineSpec E) {pc : PatCheck} (hpc : pc.test = .fullLen) {s : List Char}
-    {p : PyPat} (h : patOK E pc s p = true) : Matches p.body s := by
+    {p : PyPat} (h : patOK E pc s p = true) : Matches (pyBody pc.ascii p.body) s := by
   unfold patOK at h
-  cases he : E p.body pc.fn s with
+  cases he : E (pyBody pc.ascii p.body) pc.fn s with
   | none => simp [he] at h
   | some t =>
     simp only [he, lenOK, hpc] at h
@@ -93,9 +93,10 @@ theorem patOK_sound {E : Engine} (hE : EngineSpec E) {pc : PatCheck} (hpc : pc.t
       simp at h
 
 theorem patOK_complete {E : Engine} (hE : EngineSpec E) (pc : PatCheck) {s : List Char} {p : PyPat}
-    (hm : Matches p.body s) (hnl : ∀ t, s = t ++ ['\n'] → ¬ Matches p.body t) : patOK E pc s p = true := by
+    (hm : Matches (pyBody pc.ascii p.body) s) (hnl : ∀ t, s = t ++ ['\n'] → ¬ Matches (pyBody pc.ascii p.body) t) :
+    patOK E pc s p = true := by
   unfold patOK
-  cases he : E p.body pc.fn s with
+  cases he : E (pyBody pc.ascii p.body) pc.fn s with
   | none => exact absurd hm (hE.complete _ _ _ he).1
   | some t =>
     have ⟨hmt, ht⟩ := hE.sound _ _ _ _ he
@@ -107,7 +108,7 @@ theorem patOK_complete {E : Engine} (hE : EngineSpec E) (pc : PatCheck) {s : Lis
 /-- accepted ⇒ in every group some pattern's language contains the WHOLE target -/
 theorem patAccept_sound {E : Engine} (hE : EngineSpec E) {pc : PatCheck} (hpc : pc.test = .fullLen)
     {groups : List (List PyPat)} {s : List Char} (h : patAccept E pc groups s = true) :
-    ∀ g ∈ groups, ∃ p ∈ g, Matches p.body s := by
+    ∀ g ∈ groups, ∃ p ∈ g, Matches (pyBody pc.ascii p.body) s := by
   intro g hg
   simp only [patAccept, List.all_eq_true, List.any_eq_true] at h
   obtain ⟨p, hp, hok⟩ := h g hg
@@ -116,7 +117,8 @@ theorem patAccept_sound {E : Engine} (hE : EngineSpec E) {pc : PatCheck} (hpc : 
 /-- in every group some pattern matches the whole target and not the target minus a trailing line feed ⇒ accepted -/
 theorem patAccept_complete {E : Engine} (hE : EngineSpec E) (pc : PatCheck) {groups : List (List PyPat)}
     {s : List Char}
-    (h : ∀ g ∈ groups, ∃ p ∈ g, Matches p.body s ∧ ∀ t, s = t ++ ['\n'] → ¬ Matches p.body t) :
+    (h : ∀ g ∈ groups, ∃ p ∈ g, Matches (pyBody pc.ascii p.body) s ∧
+      ∀ t, s = t ++ ['\n'] → ¬ Matches (pyBody pc.ascii p.body) t) :
     patAccept E pc groups s = true := by
   simp only [patAccept, List.all_eq_true, List.any_eq_true]
   intro g hg
@@ -125,10 +127,10 @@ theorem patAccept_complete {E : Engine} (hE : EngineSpec E) (pc : PatCheck) {gro
 
 /-- WITHOUT the length test every engine meeting the specification accepts a matching value followed by one line
     feed (this is the seeded change C03-1) -/
-theorem patOK_noTest_trailing_nl {E : Engine} (hE : EngineSpec E) (fn : ReFn) (hfn : fn ≠ .fullmatch) (p : PyPat)
-    (t : List Char) (hm : Matches p.body t) : patOK E ⟨fn, true, .noTest⟩ (t ++ ['\n']) p = true := by
+theorem patOK_noTest_trailing_nl {E : Engine} (hE : EngineSpec E) (fn : ReFn) (hfn : fn ≠ .fullmatch) (a : Bool) (p : PyPat)
+    (t : List Char) (hm : Matches (pyBody a p.body) t) : patOK E ⟨fn, true, .noTest, a⟩ (t ++ ['\n']) p = true := by
   unfold patOK
-  cases he : E p.body fn (t ++ ['\n']) with
+  cases he : E (pyBody a p.body) fn (t ++ ['\n']) with
   | none => exact absurd hm ((hE.complete _ _ _ he).2 hfn t rfl)
   | some u => simp [lenOK]
 
@@ -293,6 +295,144 @@ theorem lastCan_nl_xsdOf (r : Rx) : lastCan '\n' (xsdOf r) = lastCan '\n' r := b
   | seq a b iha ihb => simp [xsdOf, lastCan, iha, ihb, nullable_xsdOf]
   | alt a b iha ihb => simp [xsdOf, lastCan, iha, ihb]
   | star a iha => simp [xsdOf, lastCan, iha]
+
+/-! ### `re.ASCII` -/
+
+theorem xsdSpace_asciiSpace {c : Char} (h : xsdSpace c = true) : asciiSpace c = true := by
+  simp only [xsdSpace, Bool.or_eq_true, beq_iff_eq] at h
+  simp only [asciiSpace, Bool.or_eq_true, beq_iff_eq, Bool.and_eq_true, decide_eq_true_eq]
+  omega
+
+theorem mem_asciiSpaceRanges (c : Char) :
+    (asciiSpaceRanges.any fun r => decide (r.1 ≤ c.toNat) && decide (c.toNat ≤ r.2)) = asciiSpace c := by
+  simp only [asciiSpaceRanges, asciiSpace, List.any_cons, List.any_nil, Bool.or_false]
+  rw [Bool.eq_iff_iff]
+  simp only [Bool.or_eq_true, Bool.and_eq_true, decide_eq_true_eq, beq_iff_eq]
+  omega
+
+theorem asciiOfSet_mem (cs : CSet) (c : Char) :
+    (asciiOfSet cs).mem c = (cs.ranges.any (fun r => decide (r.1 ≤ c.toNat) && decide (c.toNat ≤ r.2))
+      || (cs.space && asciiSpace c)) := by
+  unfold asciiOfSet
+  by_cases hs : cs.space = true
+  · simp only [hs, if_true, CSet.mem, List.any_append, Bool.false_and, Bool.or_false, Bool.true_and, mem_asciiSpaceRanges]
+  · have : cs.space = false := by simpa using hs
+    simp [CSet.mem, this]
+
+/-- apply one reading of the character classes throughout an expression (proof device: `xsdOf` and `asciiOf` are
+    instances) -/
+def mapSets (f : CSet → CSet) : Rx → Rx
+  | .none => .none
+  | .eps => .eps
+  | .set cs => .set (f cs)
+  | .seq a b => .seq (mapSets f a) (mapSets f b)
+  | .alt a b => .alt (mapSets f a) (mapSets f b)
+  | .star a => .star (mapSets f a)
+
+theorem xsdOf_eq_mapSets (r : Rx) : xsdOf r = mapSets xsdOfSet r := by
+  induction r with
+  | none => rfl
+  | eps => rfl
+  | set cs => rfl
+  | seq a b iha ihb => simp [xsdOf, mapSets, iha, ihb]
+  | alt a b iha ihb => simp [xsdOf, mapSets, iha, ihb]
+  | star a iha => simp [xsdOf, mapSets, iha]
+
+theorem asciiOf_eq_mapSets (r : Rx) : asciiOf r = mapSets asciiOfSet r := by
+  induction r with
+  | none => rfl
+  | eps => rfl
+  | set cs => rfl
+  | seq a b iha ihb => simp [asciiOf, mapSets, iha, ihb]
+  | alt a b iha ihb => simp [asciiOf, mapSets, iha, ihb]
+  | star a iha => simp [asciiOf, mapSets, iha]
+
+/-- if, on the characters of the string, reading `f` of every class is contained in reading `g`, a match under `f` is a
+    match under `g` -/
+theorem mapSets_imp (f g : CSet → CSet) (P : Char → Prop)
+    (hfg : ∀ cs c, P c → (f cs).mem c = true → (g cs).mem c = true) :
+    ∀ (r : Rx) (s : List Char), (∀ c ∈ s, P c) → Matches (mapSets f r) s → Matches (mapSets g r) s := by
+  intro r
+  induction r with
+  | none => intro s _ h; exact h
+  | eps => intro s _ h; exact h
+  | set cs =>
+    intro s hP h
+    obtain ⟨c, rfl, hc⟩ := (matches_set_iff _ _).mp h
+    exact Matches.set _ c (hfg cs c (hP c (by simp)) hc)
+  | seq a b iha ihb =>
+    intro s hP h
+    obtain ⟨s1, s2, rfl, h1, h2⟩ := (matches_seq_iff _ _ _).mp h
+    exact Matches.seq (iha s1 (fun c hc => hP c (by simp [hc])) h1) (ihb s2 (fun c hc => hP c (by simp [hc])) h2)
+  | alt a b iha ihb =>
+    intro s hP h
+    rcases (matches_alt_iff _ _ _).mp h with h | h
+    · exact Matches.altL (iha s hP h)
+    · exact Matches.altR (ihb s hP h)
+  | star a iha =>
+    intro s hP h
+    generalize hr : mapSets f (.star a) = r' at h
+    induction h with
+    | eps => cases hr
+    | set => cases hr
+    | seq => cases hr
+    | altL => cases hr
+    | altR => cases hr
+    | starNil => exact Matches.starNil
+    | @starCons a' s1 s2 h1 _ _ ih2 =>
+      simp only [mapSets, Rx.star.injEq] at hr
+      subst hr
+      exact Matches.starCons (iha s1 (fun c hc => hP c (by simp [hc])) h1)
+        (ih2 (fun c hc => hP c (by simp [hc])) rfl)
+
+/-- the XSD reading is contained in the `re.ASCII` reading -/
+theorem xsdOf_to_ascii {r : Rx} {s : List Char} (h : Matches (xsdOf r) s) : Matches (asciiOf r) s := by
+  rw [xsdOf_eq_mapSets] at h
+  rw [asciiOf_eq_mapSets]
+  refine mapSets_imp xsdOfSet asciiOfSet (fun _ => True) ?_ r s (fun _ _ => trivial) h
+  intro cs c _ hm
+  rw [xsdOfSet_mem] at hm
+  rw [asciiOfSet_mem]
+  simp only [Bool.or_eq_true, Bool.and_eq_true] at hm ⊢
+  rcases hm with hm | ⟨h1, h2⟩
+  · exact Or.inl hm
+  · exact Or.inr ⟨h1, xsdSpace_asciiSpace h2⟩
+
+/-- … and they coincide on strings without `\v` and `\f` -/
+theorem asciiOf_to_xsd {r : Rx} {s : List Char} (h : Matches (asciiOf r) s) (hp : plainFor true s = true) :
+    Matches (xsdOf r) s := by
+  rw [asciiOf_eq_mapSets] at h
+  rw [xsdOf_eq_mapSets]
+  refine mapSets_imp asciiOfSet xsdOfSet (fun c => (!(asciiSpace c) || xsdSpace c) = true) ?_ r s ?_ h
+  · intro cs c hc hm
+    rw [asciiOfSet_mem] at hm
+    rw [xsdOfSet_mem]
+    simp only [Bool.or_eq_true, Bool.and_eq_true] at hm ⊢
+    rcases hm with hm | ⟨h1, h2⟩
+    · exact Or.inl hm
+    · right
+      refine ⟨h1, ?_⟩
+      simp only [h2, Bool.not_true, Bool.false_or] at hc
+      exact hc
+  · intro c hc
+    simp only [plainFor, pySpace, if_true, List.all_eq_true] at hp
+    exact hp c hc
+
+/-- whatever the call shape, a match of what Python runs is a match of the XSD reading on plain strings … -/
+theorem pyBody_to_xsd (a : Bool) {r : Rx} {s : List Char} (h : Matches (pyBody a r) s) (hp : plainFor a s = true) :
+    Matches (xsdOf r) s := by
+  cases a with
+  | true => exact asciiOf_to_xsd (by simpa [pyBody] using h) hp
+  | false =>
+    have h' : Matches r s := by simpa [pyBody] using h
+    apply xsdOf_of_plain h'
+    simpa [plainFor, pySpace, plainSpaces] using hp
+
+/-- … and a match of the XSD reading is a match of what Python runs -/
+theorem xsd_to_pyBody (a : Bool) {r : Rx} {s : List Char} (h : Matches (xsdOf r) s) : Matches (pyBody a r) s := by
+  cases a with
+  | true => simpa [pyBody] using xsdOf_to_ascii h
+  | false => simpa [pyBody] using xsdOf_sub h
 
 /-! ### steps -/
 
